@@ -42,6 +42,11 @@ pub fn validators() -> Vec<VDef> {
         VDef { module: "vc", name: "shapes", params: vec![Ty::Adt("Shape"), o(Ty::Adt("Rec"))] },
         VDef { module: "vc", name: "tree_box", params: vec![Ty::Adt("Tree"), Ty::Adt("BoxInt")] },
         VDef { module: "vc", name: "four", params: vec![Ty::Bool, Ty::Void, Ty::Int, l(Ty::Bytes)] },
+        // names related by prefix / suffix / case (entries are located by title)
+        VDef { module: "vd", name: "pool", params: vec![Ty::Int, Ty::Bool] },
+        VDef { module: "vd", name: "pool_stake", params: vec![Ty::Int, Ty::Bool] },
+        VDef { module: "vd", name: "stake_pool", params: vec![Ty::Bool, Ty::Int] },
+        VDef { module: "vd", name: "po", params: vec![Ty::Int] },
     ]
 }
 
@@ -67,7 +72,13 @@ pub fn source_for_module(module: &str) -> String {
 }
 
 pub fn build_initial() -> Result<String, String> {
-    let sc = Scratch::new("c18", &[("validators/va.ak".to_string(), source_for("va")), ("validators/vb.ak".to_string(), source_for("vb")), ("validators/vc.ak".to_string(), source_for("vc"))]);
+    let sc = Scratch::new("c18", &[("validators/va.ak".to_string(), source_for("va")), ("validators/vb.ak".to_string(), source_for("vb")), ("validators/vc.ak".to_string(), source_for("vc")), ("validators/vd.ak".to_string(), source_for("vd"))]);
+    sc.build(silent())
+}
+
+/// the two-module project (five validators) whose blueprint C20 mutates
+pub fn build_initial_small() -> Result<String, String> {
+    let sc = Scratch::new("c18s", &[("validators/va.ak".to_string(), source_for("va")), ("validators/vb.ak".to_string(), source_for("vb"))]);
     sc.build(silent())
 }
 
@@ -93,7 +104,33 @@ fn entries<'a>(bp: &'a Blueprint, v: &VDef) -> Vec<&'a aiken_project::blueprint:
 }
 
 /// invariants of one state; `applied` = the parameter values applied so far
-fn check_state(run: &Run, json_text: &str, v: &VDef, applied: &[RData], case: &J, counters: &mut (u64, u64)) {
+fn check_state(run: &Run, initial_text: &str, json_text: &str, v: &VDef, applied: &[RData], case: &J, counters: &mut (u64, u64)) {
+    // frame condition: applying parameters to one validator leaves every entry of every other
+    // validator exactly as `aiken build` wrote it
+    if !applied.is_empty() {
+        let (t0, t1): (J, J) = (serde_json::from_str(initial_text).unwrap_or(J::Null), serde_json::from_str(json_text).unwrap_or(J::Null));
+        let own = format!("{}.{}.", v.module, v.name);
+        let empty = vec![];
+        let (a0, a1) = (t0["validators"].as_array().unwrap_or(&empty), t1["validators"].as_array().unwrap_or(&empty));
+        if a0.len() != a1.len() {
+            run.violation(Violation { signature: "number-of-entries-changes".into(), what: format!("the blueprint has {} entries before and {} after applying parameters to {}.{}", a0.len(), a1.len(), v.module, v.name), case: case.clone() });
+        }
+        for (e0, e1) in a0.iter().zip(a1.iter()) {
+            let title = e0["title"].as_str().unwrap_or("");
+            if !title.starts_with(&own) && e0 != e1 {
+                let what_changed: Vec<&str> = ["title", "compiledCode", "hash", "parameters", "redeemer", "datum"].into_iter().filter(|k| e0[*k] != e1[*k]).collect();
+                run.violation(Violation {
+                    signature: "application-changes-another-validator".into(),
+                    what: format!("applying {} parameter(s) to {}.{} changed the entry {title} ({})", applied.len(), v.module, v.name, what_changed.join(", ")),
+                    case: case.clone(),
+                });
+                break;
+            }
+        }
+        if t0["definitions"] != t1["definitions"] || t0["preamble"] != t1["preamble"] {
+            run.violation(Violation { signature: "application-changes-definitions-or-preamble".into(), what: format!("applying parameters to {}.{} changed the blueprint's definitions or preamble", v.module, v.name), case: case.clone() });
+        }
+    }
     let bp = match parse_blueprint(json_text) {
         Ok(b) => b,
         Err(e) => {
@@ -203,7 +240,7 @@ pub fn run(tier: Tier, replay: Option<String>) -> i32 {
             states += 1;
             max_depth = max_depth.max(hist.len());
             let case = json!({"engine":"c18","validator":format!("{}.{}", v.module, v.name),"validator_index":vi,"history":hist.iter().map(crate::datau_json).collect::<Vec<_>>()});
-            check_state(&run, &text, v, &hist, &case, &mut counters);
+            check_state(&run, &initial, &text, v, &hist, &case, &mut counters);
             if hist.len() == v.params.len() {
                 // complete: compare with applying all parameters at once to the initial script
                 let bp0 = parse_blueprint(&initial).unwrap();
@@ -285,7 +322,7 @@ pub fn run(tier: Tier, replay: Option<String>) -> i32 {
     run.set("traces_validated_against_impl", states);
     run.set("evaluations", counters.0 + transitions);
     run.set("distinct_nontrivial", outcomes.len() as u64);
-    run.set("rule", "state = blueprint JSON text after a history of parameter applications (re-parsed at every step); operations = apply_parameter with conforming values of the next parameter's type, the mutation ball of one of them, and values of the other parameters' types; in every state: JSON round trip, remaining parameters = tail, hash = independent blake2b-224 of 03||compiledCode, sibling handlers share the program, and for every completion with remaining conforming values both handlers accept exactly the redeemer built from all parameter values; complete states equal apply_params_to_script with all parameters at once; distinct_nontrivial = distinct fully applied blueprints");
+    run.set("rule", "state = blueprint JSON text after a history of parameter applications (re-parsed at every step); operations = apply_parameter with conforming values of the next parameter's type, the mutation ball of one of them, and values of the other parameters' types; in every state: JSON round trip, remaining parameters = tail, hash = independent blake2b-224 of 03||compiledCode, sibling handlers share the program, every entry of every other validator (incl. ones whose names extend or are extended by this one's) and the definitions are untouched, and for every completion with remaining conforming values both handlers accept exactly the redeemer built from all parameter values; complete states equal apply_params_to_script with all parameters at once; distinct_nontrivial = distinct fully applied blueprints");
     run.assume("Plutus V3 only (the project configuration accepts no other version); script contexts are minimal hand-built Data values, sufficient because the handlers ignore everything but the redeemer and the purpose");
     if states < 20 || rejected_ops == 0 || counters.0 < 100 {
         run.machinery_error("vacuous: too few states / no rejected application / too few evaluations");
